@@ -674,7 +674,7 @@ Definition handle_new_connection (st : rstate) (conn : connection) (link : N) : 
       let groups1 := rejoin_groups (r_groups st1) (cf_strategy (r_cfg st1)) client (tr_reqs trk) in
       let wills := match c_will conn1 with
                    | Some w => al_set str_eqb client w (r_wills st1)
-                   | None => r_wills st1
+                   | None => al_remove str_eqb client (r_wills st1)
                    end in
       let conn2 := set_c_will conn1 None in
       let '(conns, id) := slab_insert (r_conns st1) conn2 in
@@ -990,7 +990,8 @@ Definition forward_device_data (st : rstate) (id : N) (rq : drequest)
                 | Some (_, g) => negb (ostr_eqb (Some (o_client o)) (current_client g))
                 | None => false
                 end in
-    if skip then Ok (st1, rq1, if caughtup then FilterCaughtup else SkipRequest)
+    if skip then Ok (st1, rq1, if caughtup && match publishes with [] => true | _ => false end
+                               then FilterCaughtup else SkipRequest)
     else
       let rq2 := {| dr_filter := dr_filter rq1; dr_idx := dr_idx rq1; dr_qos := dr_qos rq1;
                     dr_cursor := next; dr_read := dr_read rq1 + lenN publishes;
